@@ -180,6 +180,31 @@ func main() {
 				{Name: "B", Fresh: &b, Callers: callers(1, 1, all, false)},
 			}
 		}, *rounds/10+2, 12*time.Second, enc)
+		// the same exchange through the real tcpConn: a loopback socket, the server's answers arriving in pieces
+		{
+			// no short wall-clock oracle: a round that does not finish is judged only when the relay has moved no
+			// byte for more than 30 s (every answer of the server has been in the client's socket that long and the
+			// client has not reacted; the unchanged client reacts within milliseconds), else it is counted only
+			rep := report{Scenario: "a fresh client exchanges keys over a loopback TCP connection, every answer arriving in pieces of 64 bytes"}
+			seen := map[string]bool{}
+			for r := 0; r < 2; r++ {
+				a := hs.Base()
+				a.Pad = 0
+				sc := &sess.Scenario{Name: "T", Fresh: &a, OverTCP: true, Callers: callers(1, 2, all, false)}
+				x, timedOut := sess.RunFree(sc, int64(r+1), 75*time.Second)
+				rep.Rounds++
+				if timedOut {
+					if quiet := time.Duration(time.Now().UnixNano() - x.RelayLast.Load()); quiet > 30*time.Second {
+						rep.Wrong = append(rep.Wrong, "hangs|the server's answers have been in the client's socket for more than 30 s (delivered in pieces of 64 bytes), the client neither completes the exchange nor sends anything")
+						break
+					}
+					rep.Timeouts++
+					continue
+				}
+				judge(&rep, seen, sc, x)
+			}
+			enc.Encode(rep)
+		}
 	case "C01", "C02", "C15":
 		codecSet(*rounds, enc)
 	case "C03", "C04", "C05":
